@@ -121,6 +121,11 @@ func campaignC16(p *Parser, req *Request, resp *Response) {
 		viol(ref, "not-bounded", fmt.Sprintf("the parse did not return within %d instrumentation steps (budget %d x %d per expression); ExprCnt=%d", int64(ref+2)*C, ref, C, R.ExprCnt), nil)
 		return
 	}
+	const optsMsg = "Parse wrote into the spare capacity of the option slice it was given: a program that keeps several option lists in one array (common := make([]Option, 0, 8); strict := append(common, MaxExpressions(n))) loses the options stored there - the budget of a later call among them"
+	if R.OptsModified {
+		viol(ref, "caller-options-modified", optsMsg, nil)
+		return
+	}
 	refExhausted := false
 	for _, e := range R.Errs {
 		if e.InnerMsg == maxExprMsg {
